@@ -31,8 +31,11 @@ def replay(harness, playback_text):
         p = subprocess.run(['cargo', 'kani', 'playback', '-Z', 'concrete-playback', '--', tm.group(1)], cwd=dst, env=env,
                            capture_output=True, text=True, timeout=900)
         out = p.stdout + p.stderr
-        failed = 'test result: FAILED' in out
         passed = re.search(r'test result: ok\. 1 passed', out) is not None
+        compiled = 'Running unittests' in out or 'running 1 test' in out
+        # a failing assertion shows as FAILED; undefined behaviour caught by the debug build's precondition checks aborts the process
+        failed = ('test result: FAILED' in out) or (compiled and not passed and (
+            'unsafe precondition(s) violated' in out or 'panicked at' in out or 'SIGABRT' in out or 'SIGSEGV' in out or p.returncode != 0))
         pm = re.search(r"panicked at ([^\n]*)\n([^\n]*)", out)
         return {'reproduced': failed, 'ran': failed or passed, 'test': tm.group(1),
                 'panic': (pm.group(1) + ' ' + pm.group(2)) if pm else None, 'output_tail': out[-1500:]}
